@@ -29,98 +29,48 @@ PRF = PM + ".paged_result_field"
 # C07.1
 
 
-def presence_type_check(fn, source: str, name: str, typ: str):
-    """Is there a check `field = <source>.fields.get(<name>); if not field or field.type != <typ>: return None`
-    either written out or as an iteration of a loop over a literal tuple of (source, type, name) triples?"""
-    # direct form
-    for st in ast.walk(fn):
-        if isinstance(st, ast.Assign) and len(st.targets) == 1 and isinstance(st.targets[0], ast.Name):
-            if pmatch(f"{source}.fields.get('{name}', None)", st.value) is not None \
-                    or pmatch(f"{source}.fields.get('{name}')", st.value) is not None:
-                V = st.targets[0].id
-                for i in ast.walk(fn):
-                    if isinstance(i, ast.If) and _returns_none(i.body):
-                        if pmatch(f"not _V_ or _V_.type != {typ}", i.test, {"_V_": V}) is not None:
-                            return True, i.lineno
-                return False, st.lineno
-    # loop form
-    for lp in ast.walk(fn):
-        if isinstance(lp, ast.For) and isinstance(lp.iter, ast.Tuple) and isinstance(lp.target, ast.Tuple):
-            names = [t.id for t in lp.target.elts if isinstance(t, ast.Name)]
-            for row in lp.iter.elts:
-                if not isinstance(row, ast.Tuple) or len(row.elts) != len(names):
-                    continue
-                vals = [ast.unparse(e) for e in row.elts]
-                if sorted(vals) != sorted([source, typ, repr(name)]):
-                    continue
-                bind = dict(zip(vals, names))
-                S, T, N = bind[source], bind[typ], bind[repr(name)]
-                V = None
-                for st in lp.body:
-                    if isinstance(st, ast.Assign) and isinstance(st.targets[0], ast.Name):
-                        if pmatch("_S_.fields.get(_N_, None)", st.value, {"_S_": S, "_N_": N}) is not None \
-                                or pmatch("_S_.fields.get(_N_)", st.value, {"_S_": S, "_N_": N}) is not None:
-                            V = st.targets[0].id
-                if V is None:
-                    return False, lp.lineno
-                for i in lp.body:
-                    if isinstance(i, ast.If) and _returns_none(i.body) and \
-                            pmatch("not _V_ or _V_.type != _T_", i.test, {"_V_": V, "_T_": T}) is not None:
-                        return True, i.lineno
-                return False, lp.lineno
-    return False, fn.lineno
-
-
-def _returns_none(body):
-    return any(isinstance(s, ast.Return) and (s.value is None or (isinstance(s.value, ast.Constant) and s.value.value is None)) for s in body)
-
-
 def check_classification(report):
+    """Decided on the decision table of the function's normal form (vlib/pynorm.py): paged_result_field has exactly one non-None
+    outcome, reached under exactly the AIP-4233 conditions - however the checks are spelled (loop over a table of triples, unrolled,
+    helper method, guard clauses, hoisted constants ...)."""
+    from ..pymodel import nreturn, decision_leaves
     r = report.rule("C07.1", "paged_result_field applies the AIP-4233 table: string page_token / next_page_token, integer size field, "
                              "first repeated response field; None otherwise", floor=7)
     m = pm()
     fi = m.func("gapic.schema.wrappers.Method.paged_result_field")
     fn, p = fi.node, fi.module.path
-    for source, name, typ in (("self.input", "page_token", "str"), ("self.output", "next_page_token", "str")):
-        ok, line = presence_type_check(fn, source, name, typ)
-        r.instance(f"{source}.{name}: {typ}")
-        r.check(ok, p, line, f"presence/type check of {source}.fields['{name}']",
-                f"the method is paged only if {source} has a `{name}` field *and that same field's* type is {typ}; the check must test the "
-                f"field it looked up and return None when it fails")
-    # size field
-    node, b = find_match("(self.input.fields.get('max_results', None), self.input.fields.get('page_size', None))", fn)
-    r.instance("size field candidates")
-    r.check(node is not None, p, fn.lineno, "page size candidates", "the size field is the first present of max_results, page_size on the request")
-    node, b = find_match("next((_F_ for _F_ in _PF_ if _F_), None)", fn)
-    r.instance("first present size field")
-    r.check(node is not None, p, fn.lineno, "first present size field", "the first present candidate must be chosen")
-    sz = [n for n in ast.walk(fn) if isinstance(n, ast.If) and _returns_none(n.body) and "_validate_paged_field_size_type" in ast.unparse(n.test)]
-    r.instance("size type validated")
-    r.check(len(sz) == 1 and ast.unparse(sz[0].test).startswith("not self._validate_paged_field_size_type("), p, fn.lineno,
-            "size type validation", "a size field of a disallowed type must make the method non-paged")
-    absent = [n for n in ast.walk(fn) if isinstance(n, ast.If) and _returns_none(n.body) and isinstance(n.test, ast.UnaryOp)
-              and isinstance(n.test.operand, ast.Name)]
-    r.check(len(absent) >= 1, p, fn.lineno, "missing size field returns None", "no size field must make the method non-paged")
-    vf = m.func("gapic.schema.wrappers.Method._validate_paged_field_size_type")
-    rets = [n for n in ast.walk(vf.node) if isinstance(n, ast.Return)]
-    r.instance("_validate_paged_field_size_type")
-    okv = len(rets) == 1 and (pmatch("_T_ == int or (isinstance(_T_, MessageType) and _T_.message_pb.name in {'UInt32Value', 'Int32Value'})", rets[0].value) is not None
-                              or pmatch("_T_ == int or (isinstance(_T_, MessageType) and _T_.message_pb.name in {'Int32Value', 'UInt32Value'})", rets[0].value) is not None)
-    r.check(okv, p, vf.node.lineno, ast.unparse(rets[0].value)[:120] if rets else "", "allowed size types: int, or the wrapper messages Int32Value / UInt32Value")
-    # first repeated
-    loops = [n for n in fn.body if isinstance(n, ast.For) and ast.unparse(n.iter) == "self.output.fields.values()"]
+    e = nreturn(m, fi)
+    r.need(e is not None, "Method.paged_result_field", "the function does not reduce to a decision table (one conditional expression); the rule cannot judge it")
+    leaves = decision_leaves(e)
+    paged = [(c, v) for c, v in leaves if not (isinstance(v, ast.Constant) and v.value is None)]
+    r.instance("single paged outcome")
+    r.check(len(paged) == 1, p, fn.lineno, f"{len(paged)} non-None outcomes", "there must be exactly one way to be paged; every failed check gives None")
+    if len(paged) != 1:
+        return
+    conds, value = paged[0]
+    conds = set(conds)
+    TOK = "self.input.fields.get('page_token', None)"
+    NXT = "self.output.fields.get('next_page_token', None)"
+    SIZE = "next((_c1 for _c1 in [self.input.fields.get('max_results', None), self.input.fields.get('page_size', None)] if _c1), None)"
+    SIZE_OK = (f"{SIZE}.type == int or (isinstance({SIZE}.type, MessageType) and {SIZE}.type.message_pb.name in {{'Int32Value', 'UInt32Value'}})")
+    expected = [
+        ((TOK, True), "self.input.page_token: present", "the request must have a `page_token` field"),
+        ((f"{TOK}.type == str", True), "self.input.page_token: str", "the request's `page_token` (that same field) must be a string"),
+        ((NXT, True), "self.output.next_page_token: present", "the response must have a `next_page_token` field"),
+        ((f"{NXT}.type == str", True), "self.output.next_page_token: str", "the response's `next_page_token` (that same field) must be a string"),
+        ((SIZE, True), "size field present", "the size field is the first present of max_results, page_size on the request; none means not paged"),
+        ((SIZE_OK, True), "size field type", "allowed size types: int, or the wrapper messages Int32Value / UInt32Value"),
+    ]
+    alt = {c.replace(", None)", ")") for c, _ in conds}       # .get(name) and .get(name, None) are the same lookup
+    for (src, pol), what, msg in expected:
+        r.instance(what)
+        r.check((src, pol) in conds or (src.replace(", None)", ")") in alt and pol), p, fn.lineno, what, msg)
+    extra = conds - {x for x, _, _ in expected}
+    r.check(not extra or all(c.replace(", None)", ")") in {x[0].replace(", None)", ")") for x, _, _ in expected} for c, _ in extra), p, fn.lineno,
+            f"additional conditions {sorted(extra)[:2]}", "no other condition may decide whether a method is paged")
     r.instance("first repeated field")
-    ok = False
-    if len(loops) == 1 and isinstance(loops[0].target, ast.Name):
-        F = loops[0].target.id
-        body = loops[0].body
-        ok = len(body) == 1 and isinstance(body[0], ast.If) and pmatch("_F_.repeated", body[0].test, {"_F_": F}) is not None \
-            and len(body[0].body) == 1 and isinstance(body[0].body[0], ast.Return) and ast.unparse(body[0].body[0].value) == F and not body[0].orelse
-    r.check(ok, p, loops[0].lineno if loops else fn.lineno, "for field in self.output.fields.values(): if field.repeated: return field",
-            "the item field is the first repeated field of the response in declaration order")
-    last = fn.body[-1]
-    r.check(isinstance(last, ast.Return) and (last.value is None or ast.unparse(last.value) == "None"), p, last.lineno, "final return None",
-            "a response without repeated field is not paged")
+    r.check(ast.unparse(value) == "next((_c1 for _c1 in self.output.fields.values() if _c1.repeated), None)", p, fn.lineno, ast.unparse(value)[:120],
+            "the item field is the first repeated field of the response in declaration order (None when there is none)")
 
 
 # ---------------------------------------------------------------------------
